@@ -77,6 +77,10 @@ class CatLinearOperator(LinearOperator):
         # Make sure index is negative index
         rep_tensor = linear_ops[0]
         ndims = rep_tensor.ndimension()
+        if not (-ndims <= dim < ndims):
+            raise IndexError(
+                "Dimension out of range (expected to be in range of [{}, {}], but got {})".format(-ndims, ndims - 1, dim)
+            )
         if dim >= 0:
             positive_dim = dim
             dim = dim - ndims
